@@ -156,7 +156,7 @@ def run(chk):
     for i, c in enumerate(allc):
         c['id'] = i
         c['cfg'] = dict(c.get('cfg') or {}, timeout_scale=0.4)      # tiny grammars, tiny inputs: 2 s (12 s to confirm)
-    pegcheck.replay(chk, allc, tagger=tagger, sample_every=2999)
+    pegcheck.replay(chk, allc, tagger=tagger, sample_every=2999, timeout_budget=200)
     # the same renamed grammars split over a base and a derived module (template roles)
     split = []
     for c in allc:
